@@ -106,6 +106,69 @@ func (n Node) Markers() []Marker {
 	return out
 }
 
+// Segment is one stranded span of a location in reading order, with the partial markers written on it.
+type Segment struct {
+	A, B    int
+	Reverse bool
+	P5, P3  bool
+}
+
+// Segments resolves the expression to its stranded spans in reading order: a join reads its operands one after the
+// other, a complement reads its operand backwards on the other strand. Two expressions with the same segments denote
+// the same bases, read the same way, with the same partial ends - whatever their nesting (complement(join(a,b)) and
+// join(complement(b),complement(a)) have the same segments).
+func (n Node) Segments() []Segment {
+	if n.IsLeaf() {
+		return []Segment{{A: n.A, B: n.B, P5: n.P5, P3: n.P3}}
+	}
+	var out []Segment
+	for _, k := range n.Kids {
+		out = append(out, k.Segments()...)
+	}
+	if n.Kind == "complement" {
+		out = flipSegments(out)
+	}
+	return out
+}
+
+func flipSegments(s []Segment) []Segment {
+	out := make([]Segment, len(s))
+	for i, x := range s {
+		x.Reverse = !x.Reverse
+		out[len(s)-1-i] = x
+	}
+	return out
+}
+
+// StructureSegments is Segments for poly's representation.
+func StructureSegments(l poly.Location) []Segment {
+	var out []Segment
+	if len(l.SubLocations) == 0 {
+		out = []Segment{{A: l.Start + 1, B: l.End, P5: l.FivePrimePartial, P3: l.ThreePrimePartial}}
+	} else {
+		for _, s := range l.SubLocations {
+			out = append(out, StructureSegments(s)...)
+		}
+	}
+	if l.Complement {
+		out = flipSegments(out)
+	}
+	return out
+}
+
+// SameSegments compares two segment lists.
+func SameSegments(a, b []Segment) bool {
+	if len(a) != len(b) {
+		return false
+	}
+	for i := range a {
+		if a[i] != b[i] {
+			return false
+		}
+	}
+	return true
+}
+
 func (n Node) HasP3() bool {
 	for _, m := range n.Markers() {
 		if m.P3 {
